@@ -691,7 +691,8 @@ MANIFEST = {
     "completed-by name/any, up to 12 elements and 64 clients, 80% passed through the real task filter so that elements emptied or thinned by filters occur) "
     "are given to the real Allocator: rectangular matrix, aligned join points, every (task, client index) exactly once between the join points of its element "
     "(reference allocation), steps == progress entries == schedule elements with the right task sets; a real Driver is started on the schedule and walked through "
-    "every join point (progress line per step, every client started exactly once). As many host layouts (1-8 hosts, 1-64 cores, 1-2048 clients) go through the real "
+    "every join point (progress line per step, every client started exactly once); the ClientAllocations object of every worker is read column by column the way Worker.drive() reads it "
+    "(every (task, client index) driven exactly once over all workers) and every TaskAllocation.total_clients is compared with the model's element size after filtering. As many host layouts (1-8 hosts, 1-64 cores, 1-2048 clients) go through the real "
     "calculate_worker_assignments: exact partition, contiguous ranges, workers <= cores, loads within one client. Holds on the executions produced, not beyond.",
     "note": "Trusts the 10-line reference allocation and the stubs standing in for the actor system, metrics store and telemetry around the real Driver.",
     "technique": "runtime monitor: invariants + reference-model oracle over the real Allocator / Driver bookkeeping / calculate_worker_assignments on generated schedules and host layouts",
